@@ -308,11 +308,13 @@ func isHashCallOnValueOf(v ssa.Value, sn ssa.Value) bool {
 func runC13(r *engine.Run) {
 	r.Rule("AGREE-rollback", "Rollback and RollbackTrie reset the same bookkeeping (created, tempDeleted, deleted) and both delete exactly the hashes in `created` through one batch")
 	r.Rule("AGREE-checkpoint", "the fields of the checkpoint written by SaveRoot (hash, weight of the current root) are exactly those Rollback restores the root from, and SaveRoot resets `created`")
+	r.Rule("DOM-created", "see C11: every node a commit writes is recorded as created (also at the collapse level), so that a rollback removes it from storage")
 	r.Rule("AGREE-created", "in each arm of commit a node's hash is recorded as created under the same 'hash changed' condition under which its previous hash is recorded as deleted: a node whose hash did not change existed at the checkpoint and must not be removed by a rollback")
 	r.NotDec = append(r.NotDec, "resolvability of every checkpoint node after rollback for every history (value-level)")
 	agreeRollback(r)
 	agreeCheckpoint(r)
 	agreeCreated(r)
+	domCreated(r, "DOM-created")
 }
 
 func bookkeepingResets(f *ssa.Function) (map[string]bool, bool, bool) {
